@@ -297,6 +297,7 @@ def run(w, world_files, opts, host=None, faults=None, crash_at=None, dump=False,
         "prog": "rp2_%s" % opts.get("country", "us"),
         "argv": argv,
         "random_seed": host.get("random_seed", 0),
+        "sched_seed": host.get("sched_seed", 0),
         "layout": layout,
         "faults": faults or [],
         "crash_at": crash_at,
@@ -432,7 +433,7 @@ def digest(res, w):
     doc = {"rc": res["rc"], "timed_out": res["timed_out"], "stdout": text(res["stdout"]), "stderr": text(res["stderr"]), "argv": norm(res["argv"]),
            "events": norm(child.get("events")), "faults": norm(child.get("faults")), "clock": child.get("clock"), "dumps": child.get("dumps"),
            "io_steps": child.get("io_steps"), "crashed": child.get("crashed"), "imports": child.get("imports"), "after": after,
-           "quiet_reads": child.get("quiet_reads"), "sys": (res.get("sys") or {}).get("violations")}
+           "quiet_reads": child.get("quiet_reads"), "sched_steps": child.get("sched_steps"), "sys": (res.get("sys") or {}).get("violations")}
     h = hashlib.sha256(json.dumps(doc, sort_keys=True, default=str).encode()).hexdigest()
     dump_dir = os.environ.get("RP2SIM_DIGEST_DUMP")
     if dump_dir:
